@@ -22,7 +22,7 @@ type c07Params struct {
 func c07Gen(tier string, seed int64) []fw.Case {
 	n := 25
 	if tier == "thorough" {
-		n = 700
+		n = 5000
 	}
 	var cs []fw.Case
 	for i := 0; i < 32; i++ {
